@@ -29,19 +29,26 @@ PMax(c) == RateOf(c, MaxOf(OffSet(c)))
 WMin(c, mode) == IF mode = "override" THEN RateOf(c, MinOf(OffSet(c) \ {MinOf(OffSet(c))})) ELSE PMin(c)
 WMax(c, mode) == IF mode = "override" THEN RateOf(c, MaxOf(OffSet(c) \ {MaxOf(OffSet(c))})) ELSE PMax(c)
 
-RunClauses(c, r) ==
+\* planted threshold, 1% of it, data range and window - all in 1e-6
+RunClausesG(planted, onepct, pmin, pmax, wmin, wmax, r) ==
   IF r.raised # "" THEN {"estimation_raised"} ELSE
-     (IF Abs(r.th - Planted(c)) <= MaxV(5 * ((r.right - r.left) \div 2), c.pth) THEN {}
+     (IF Abs(r.th - planted) <= MaxV(5 * ((r.right - r.left) \div 2), onepct) THEN {}
       ELSE {"threshold_differs_from_the_planted_one_beyond_fit_tolerance"})
 \cup (IF r.left <= r.th /\ r.th <= r.right THEN {} ELSE {"threshold_outside_its_own_confidence_interval"})
-\cup (IF WMin(c, r.mode) <= r.th /\ r.th <= WMax(c, r.mode) THEN {} ELSE {"threshold_outside_the_data_range"})
+\cup (IF wmin <= r.th /\ r.th <= wmax THEN {} ELSE {"threshold_outside_the_data_range"})
 \cup (IF r.status = "success" /\ r.found THEN {} ELSE {"fit_not_flagged_successful"})
 \cup (IF r.se > 0 /\ r.left < r.right THEN {} ELSE {"degenerate_uncertainty"})
 \cup (IF r.mode = "auto"
-      THEN (IF PMin(c) - 2 <= r.pl /\ r.pl <= r.th /\ r.th <= r.pr /\ r.pr <= PMax(c) + 2 THEN {}
+      THEN (IF pmin - 2 <= r.pl /\ r.pl <= r.th /\ r.th <= r.pr /\ r.pr <= pmax + 2 THEN {}
             ELSE {"automatic_window_outside_the_data_or_excluding_the_threshold"})
-      ELSE (IF Abs(r.pl - WMin(c, r.mode)) <= 2 /\ Abs(r.pr - WMax(c, r.mode)) <= 2 THEN {}
+      ELSE (IF Abs(r.pl - wmin) <= 2 /\ Abs(r.pr - wmax) <= 2 THEN {}
             ELSE {"data_range_used_is_not_the_range_supplied"}))
+RunClauses(c, r) == RunClausesG(Planted(c), c.pth, PMin(c), PMax(c), WMin(c, r.mode), WMax(c, r.mode), r)
+
+\* kind "sector": X and Z logical failures planted with different thresholds;
+\* each sector's reported threshold is judged against its own planted value
+FailedSector(r) == UNION { RunClausesG(r.planted, r.onepct, r.pmin, r.pmax, r.pmin, r.pmax, r.runs[k]) :
+                           k \in DOMAIN r.runs }
 
 FailedPlanted(r) ==
   LET c == r.case IN
@@ -62,7 +69,8 @@ FailedStatus(r) ==
 NoteStatus(r) ==
   IF r.observed = Status(r.entry) THEN {} ELSE {"status_text_differs_from_the_transcription"}
 
-Failed(r) == IF r.kind = "planted" THEN FailedPlanted(r) ELSE FailedStatus(r)
+Failed(r) == IF r.kind = "planted" THEN FailedPlanted(r)
+             ELSE IF r.kind = "sector" THEN FailedSector(r) ELSE FailedStatus(r)
 Judged == i = 0 \/
           /\ Report(Recs[i].id, Failed(Recs[i]))
           /\ (Recs[i].kind # "status" \/ NoteStatus(Recs[i]) = {}
